@@ -1122,6 +1122,18 @@ func readerBytes(fr *frame, r value) []byte {
 	}
 	pt, ok := iv.t.Underlying().(*types.Pointer)
 	pv, _ := iv.v.(*value)
+	if pv != nil {
+		if fm, isFile := (*pv).(*fileModel); isFile {
+			// a modelled file (also the body of a scripted remote's response)
+			bs, _ := fr.i.path.env.files[fm.path].([]value)
+			b, conc := concBytes(bs[min(fm.pos, len(bs)):])
+			if !conc {
+				panic(unsupported{"json.Decoder over a file with symbolic bytes"})
+			}
+			fm.pos = len(bs)
+			return b
+		}
+	}
 	if ok && pv != nil {
 		if n, isNamed := pt.Elem().(*types.Named); isNamed && n.Obj().Pkg() != nil {
 			full := n.Obj().Pkg().Path() + "." + n.Obj().Name()
